@@ -63,5 +63,16 @@ Transcript(c, s) ==
   ELSE { Fr(FALSE, FALSE, BData("m" \o ToString(Len(s)))), Fr(FALSE, TRUE, BData("m" \o ToString(Len(s)))) }
          \cup (IF s[2].r = 1 THEN {} ELSE { Fr(TRUE, FALSE, BPing("c")) })
 
+\* C04: PLAIN needs no secret the peer could not write down in advance: a blind PLAIN transcript for
+\* either role (as client: HELLO with the right password; as server: WELCOME), READY, then data
+PlainBoth == { C(TRUE, "PULL", "", "PLAIN", TRUE), C(FALSE, "PULL", "", "PLAIN", TRUE) }
+TranscriptPlain(c, s) ==
+  IF Len(s) = 0 THEN { Sig(TRUE) }
+  ELSE IF Len(s) = 1 THEN { Rev(3) }
+  ELSE IF Len(s) = 2 THEN { GTail("PLAIN", ~c.srv, TRUE) }
+  ELSE IF Len(s) = 3 THEN { Fr(TRUE, FALSE, BMech(IF c.srv THEN 1 ELSE 2, TRUE)) }
+  ELSE IF Len(s) = 4 THEN { Fr(TRUE, FALSE, BReady(Partner(c.st), "")) }
+  ELSE { Fr(FALSE, FALSE, BData("m" \o ToString(Len(s)))), Fr(FALSE, TRUE, BData("m" \o ToString(Len(s)))) }
+
 Export == Terminal => PrintT(<<"REPLAY", ToJson([cfg |-> e.cfg, steps |-> hist])>>)
 =============================================================================
